@@ -66,6 +66,7 @@ let parse (toks : string list) : parsed =
         incr id;
         go r
     | "S" :: r -> after := true; go r
+    | "D" :: k :: r -> ignore (int_tok k); go r      (* consumer speed: no effect on what is delivered *)
     | _ -> raise Bad
   in
   go toks;
@@ -73,8 +74,11 @@ let parse (toks : string list) : parsed =
 
 let rec has_dup = function [] -> false | x :: t -> List.mem x t || has_dup t
 
+let is_race m = String.length m >= 1 && (m.[0] = 'x' || m.[0] = 'y')
+
 let run (toks : string list) : string =
   match toks with
+  | "route" :: mode :: _ when is_race mode -> "RACE-NOT-MODELLED"   (* monitor-only scenarios *)
   | "route" :: mode :: rest when mode = "s" || mode = "d" -> (
       match (try Some (parse rest) with Bad -> None) with
       | None -> "BAD-CASE"
